@@ -51,76 +51,147 @@ theorem local_of_mem {cfg : Config} {nts : List NetType} {ifs : List Iface} {p :
 
 /-! ### host units -/
 
+/-- what a lookup of the host rule returns are external addresses of the rule -/
+theorem lookup_sub {r : HostRule} {l : Addr} {ifc : Option Nat} {es : List Addr}
+    (h : r.lookup l ifc = some es) : ∀ e ∈ es, e ∈ r.exts := by
+  unfold HostRule.lookup at h
+  split at h
+  · simp at h
+  · split at h
+    · split at h
+      · simp only [Option.some.injEq] at h; subst h; exact fun _ he => he
+      · simp at h
+    · simp only at h
+      split at h
+      · simp at h
+      · simp only [Option.some.injEq] at h; subst h
+        exact fun e he => (List.mem_filter.1 he).1
+
+/-- an address published for interface address `a` is `a` itself or (never in mDNS gather mode) an external
+address of the host rule -/
+theorem mem_hostMapped {cfg : Config} {a m : Addr} {ifc : Nat} (h : m ∈ hostMapped cfg a ifc) :
+    m = a ∨ (cfg.mdnsGather = false ∧ ∃ r, cfg.hostRule = some r ∧ m ∈ r.exts) := by
+  unfold hostMapped at h
+  split at h
+  · left; simpa using h
+  · rename_i hmd
+    have hmd' : cfg.mdnsGather = false := by simpa using hmd
+    split at h
+    · left; simpa using h
+    · rename_i r hr
+      split at h
+      · left; simpa using h
+      · split at h
+        · left; simpa using h
+        · rename_i es hes
+          simp only [List.mem_append] at h
+          rcases h with h | h
+          · left; split at h <;> simp at h; exact h
+          · right; exact ⟨hmd', r, hr, lookup_sub hes m h⟩
+
+theorem mem_muxMapped {cfg : Config} {a m : Addr} (h : m ∈ muxMapped cfg a) :
+    m = a ∨ (cfg.mdnsGather = false ∧ ∃ r, cfg.hostRule = some r ∧ m ∈ r.exts) := by
+  unfold muxMapped at h
+  split at h
+  · left; simpa using h
+  · rename_i hmd
+    have hmd' : cfg.mdnsGather = false := by simpa using hmd
+    split at h
+    · left; simpa using h
+    · rename_i r hr
+      split at h
+      · left; simpa using h
+      · rename_i es hes
+        simp only [List.mem_append] at h
+        rcases h with h | h
+        · left; split at h <;> simp at h; exact h
+        · right; exact ⟨hmd', r, hr, lookup_sub hes m h⟩
+
+/-- the host units of the interface table: one per (accepted interface address `a`, address `m` it is
+published as, transport) whose network type — the one of `m` — is enabled and, for IPv6, `m` is not in an
+excluded class; the socket is on `a` -/
 theorem mem_hostIfaceUnits {cfg : Config} {ifs : List Iface} {u : GUnit} (hq : cfg.quirks = []) :
     u ∈ hostIfaceUnits cfg ifs ↔
-      ∃ a, Local cfg (configured cfg.netTypes) ifs a ∧ u.bind = a ∧ u.url = 0 ∧ u.n = 1 ∧
-        ((u.kind = .hostTcp ∧ u.net = NetType.ofTransport true a.cls.is6 ∧
+      ∃ a ifc m, (a, ifc) ∈ localAddrs cfg (configured cfg.netTypes) ifs ∧ m ∈ hostMapped cfg a ifc ∧
+        u.bind = a ∧ u.mapped = m ∧ u.url = 0 ∧ u.n = 1 ∧ (m.cls.is6 = true → m.cls.supported6 = true) ∧
+        ((u.kind = .hostTcp ∧ u.net = NetType.ofTransport true m.cls.is6 ∧
             (configured cfg.netTypes).contains u.net = true ∧ tcpMuxAccepts cfg a = true)
-         ∨ (u.kind = .hostUdp ∧ u.net = NetType.ofTransport false a.cls.is6 ∧
+         ∨ (u.kind = .hostUdp ∧ u.net = NetType.ofTransport false m.cls.is6 ∧
             (configured cfg.netTypes).contains u.net = true ∧ cfg.udpMux = none)) := by
   have hq13 : cfg.has 1 = false := by simp [Config.has, hq]
+  have hq8 : cfg.has 8 = false := by simp [Config.has, hq]
   unfold hostIfaceUnits
-  simp only [List.mem_flatMap, hq13, Bool.or_false]
+  simp only [List.mem_flatMap, hq13, Bool.or_false, hostPubOk, hq8]
   constructor
-  · rintro ⟨⟨a, n⟩, hp, h⟩
-    have hl := local_of_mem hp
+  · rintro ⟨⟨a, n⟩, hp, m, hm, h⟩
     simp only [List.mem_append] at h
     rcases h with h | h
     · split at h
       · rename_i hc
-        simp only [Bool.and_eq_true, hostNetEnabled] at hc
+        simp only [Bool.and_eq_true, hostNetEnabled, Bool.or_eq_true, Bool.not_eq_true'] at hc
         simp only [List.mem_singleton] at h
         subst h
-        exact ⟨a, hl, rfl, rfl, rfl, Or.inl ⟨rfl, rfl, hc.1.2, hc.2⟩⟩
+        refine ⟨a, n, m, hp, hm, rfl, rfl, rfl, rfl, ?_, Or.inl ⟨rfl, rfl, hc.1.1.2, hc.2⟩⟩
+        intro h6; rcases hc.1.2 with h | h
+        · simp [h6] at h
+        · exact h
       · simp at h
     · split at h
       · rename_i hc
-        simp only [Bool.and_eq_true, hostNetEnabled, Option.isNone_iff_eq_none] at hc
+        simp only [Bool.and_eq_true, hostNetEnabled, Option.isNone_iff_eq_none, Bool.or_eq_true, Bool.not_eq_true'] at hc
         simp only [List.mem_singleton] at h
         subst h
-        exact ⟨a, hl, rfl, rfl, rfl, Or.inr ⟨rfl, rfl, hc.2, hc.1.2⟩⟩
+        refine ⟨a, n, m, hp, hm, rfl, rfl, rfl, rfl, ?_, Or.inr ⟨rfl, rfl, hc.1.2, hc.1.1.2⟩⟩
+        intro h6; rcases hc.2 with h | h
+        · simp [h6] at h
+        · exact h
       · simp at h
-  · rintro ⟨a, ⟨i, hi, hacc, ha, hok⟩, hb, hu0, hn1, h⟩
-    refine ⟨(a, i.name), mem_localAddrs.2 ⟨i, hi, hacc, rfl, ha, hok⟩, ?_⟩
-    obtain ⟨kind, net, bind, url, n⟩ := u
-    simp only at hb hu0 hn1 h
-    subst hb hu0 hn1
+  · rintro ⟨a, ifc, m, hp, hm, hb, hmp, hu0, hn1, hsup, h⟩
+    refine ⟨(a, ifc), hp, m, hm, ?_⟩
+    obtain ⟨kind, net, bind, url, n, mapped⟩ := u
+    simp only at hb hmp hu0 hn1 h
+    subst hb hmp hu0 hn1
+    have hs : (!mapped.cls.is6 || mapped.cls.supported6) = true := by
+      cases h6 : mapped.cls.is6
+      · rfl
+      · simpa using hsup h6
     simp only [List.mem_append]
     rcases h with ⟨hk, hnet, hen, hmux⟩ | ⟨hk, hnet, hen, hmux⟩
     · left
       subst hk hnet
       have hT : (configured cfg.netTypes).any (·.isTCP) = true := by
         rw [List.any_eq_true]
-        exact ⟨_, List.contains_iff_mem.1 hen, by cases bind.cls.is6 <;> rfl⟩
-      simp [hT, hostNetEnabled, List.contains_iff_mem.1 hen, hmux]
+        exact ⟨_, List.contains_iff_mem.1 hen, by cases mapped.cls.is6 <;> rfl⟩
+      simp [hT, hostNetEnabled, List.contains_iff_mem.1 hen, hmux, hs]
     · right
       subst hk hnet
       have hU : (configured cfg.netTypes).any (fun t => !t.isTCP) = true := by
         rw [List.any_eq_true]
-        exact ⟨_, List.contains_iff_mem.1 hen, by cases bind.cls.is6 <;> rfl⟩
-      simp [hU, hostNetEnabled, List.contains_iff_mem.1 hen, hmux]
+        exact ⟨_, List.contains_iff_mem.1 hen, by cases mapped.cls.is6 <;> rfl⟩
+      simp [hU, hostNetEnabled, List.contains_iff_mem.1 hen, hmux, hs]
 
 theorem mem_hostMuxUnits {cfg : Config} {u : GUnit} (hq : cfg.quirks = []) :
     u ∈ hostMuxUnits cfg ↔
-      ∃ addrs a, cfg.udpMux = some addrs ∧ a ∈ addrs ∧ u = { kind := .hostMux, net := NetType.ofTransport false a.cls.is6, bind := a }
-        ∧ (configured cfg.netTypes).contains (NetType.ofTransport false a.cls.is6) = true
-        ∧ (a.cls.is6 = true → a.cls.supported6 = true) := by
+      ∃ addrs a m, cfg.udpMux = some addrs ∧ a ∈ addrs ∧ m ∈ muxMapped cfg a ∧
+        u = { kind := .hostMux, net := NetType.ofTransport false m.cls.is6, bind := a, mapped := m }
+        ∧ (configured cfg.netTypes).contains (NetType.ofTransport false m.cls.is6) = true
+        ∧ (m.cls.is6 = true → m.cls.supported6 = true) := by
   have hq2 : cfg.has 2 = false := by simp [Config.has, hq]
   have hq5 : cfg.has 5 = false := by simp [Config.has, hq]
   unfold hostMuxUnits
   cases hm : cfg.udpMux with
   | none => simp
   | some addrs =>
-    simp only [List.mem_map, List.mem_filter, hq2, hq5, Bool.or_false, Bool.and_eq_true, hostNetEnabled,
+    simp only [List.mem_flatMap, List.mem_map, List.mem_filter, hq2, hq5, Bool.or_false, Bool.and_eq_true, hostNetEnabled,
       Option.some.injEq]
     constructor
-    · rintro ⟨a, ⟨ha, hen, hs⟩, rfl⟩
-      refine ⟨addrs, a, rfl, ha, rfl, hen, ?_⟩
+    · rintro ⟨a, ha, m, ⟨hm, hen, hs⟩, rfl⟩
+      refine ⟨addrs, a, m, rfl, ha, hm, rfl, hen, ?_⟩
       intro h6
       simpa [h6] using hs
-    · rintro ⟨addrs', a, rfl, ha, rfl, hen, hs⟩
-      refine ⟨a, ⟨ha, hen, ?_⟩, rfl⟩
-      cases h6 : a.cls.is6 <;> simp_all
+    · rintro ⟨addrs', a, m, rfl, ha, hm, rfl, hen, hs⟩
+      refine ⟨a, ha, m, ⟨hm, hen, ?_⟩, rfl⟩
+      cases h6 : m.cls.is6 <;> simp_all
 
 /-! ### reflexive and relay units -/
 
